@@ -11,6 +11,7 @@ lists of rows; `isSp n M` says: `2n` rows, every row below `4^n`, and `S Λ Sᵀ
 import NumqiProofs.SpF2Inverse
 import NumqiProofs.SpF2Enum
 import NumqiProofs.SpF2Batch
+import NumqiProofs.SpF2Bits
 
 namespace Numqi.C09
 open Numqi Numqi.SpF2
@@ -104,6 +105,31 @@ theorem images_exactly_Sp (n : Nat) (M : List Nat) :
   · intro h
     obtain ⟨t, h1, h2, h3⟩ := fromIntTuple_surjective n M h
     exact List.mem_map.2 ⟨t, (mem_allTuples_iff n t).2 ⟨h1, h2⟩, h3⟩
+
+/-! ### the bit-packing helpers `int_to_bitarray` / `bitarray_to_int` (`spf2.py:82-112`)
+
+In the rest of the model a bit array *is* the little-endian `Nat`; these theorems justify that identification for the executed
+packing functions (ops `i2b`, `b2i`). -/
+
+/-- **`bitarray_to_int ∘ int_to_bitarray`**: whenever the integer fits into the `⌈n/8⌉` bytes (no `OverflowError`) the array has length
+`n`, entry `j` is bit `j` of `i`, and packing it again gives `i mod 2^n` — so the round trip is the identity exactly for `i < 2^n`,
+and the bits above `n` are silently dropped for `2^n ≤ i < 256^⌈n/8⌉` -/
+theorem bitarray_of_int (i n : Nat) (b : List Bool) (h : intToBitarray i n = some b) :
+    b.length = n ∧ (∀ j, j < n → b.getD j false = i.testBit j) ∧ bitarrayToInt b = i % 2 ^ n :=
+  bitarrayToInt_intToBitarray h
+
+/-- the `OverflowError` is raised exactly when `i ≥ 256^⌈n/8⌉` -/
+theorem int_to_bitarray_overflow (i n : Nat) : intToBitarray i n = none ↔ 256 ^ ((n + 7) / 8) ≤ i := intToBitarray_none_iff i n
+
+/-- **round trip on the arguments `from_int_tuple` / `to_int_tuple` use** (`i < 2^n`): no overflow, and `bitarray_to_int` returns `i` -/
+theorem int_bitarray_roundtrip (i n : Nat) (hi : i < 2 ^ n) : ∃ b, intToBitarray i n = some b ∧ bitarrayToInt b = i :=
+  intToBitarray_of_lt hi
+
+/-- **`int_to_bitarray ∘ bitarray_to_int = id`** on every bit array, and `bitarray_to_int b < 2^len` with bit `j` = entry `j` -/
+theorem bitarray_int_roundtrip (b : List Bool) :
+    intToBitarray (bitarrayToInt b) b.length = some b ∧ bitarrayToInt b < 2 ^ b.length
+    ∧ ∀ j, (bitarrayToInt b).testBit j = b.getD j false :=
+  ⟨intToBitarray_bitarrayToInt b, bitarrayToInt_lt b, testBit_bitarrayToInt b⟩
 
 /-! ### batched calls (`x.ndim ≥ 2`): `transvection` / `get_inner_product` act on the last axis, elementwise over the leading ones -/
 
